@@ -146,6 +146,7 @@ table Cmap4 {
     id_range_offsets: [u16],
     /// Glyph index array (arbitrary length)
     #[count(..)]
+    #[validate(validate_length)]
     glyph_id_array: [u16],
 }
 
